@@ -22,6 +22,7 @@ def run(ctx):
     shared.handover_order(ctx, '2')
     shared.owner_id_removal(ctx, '3')
     shared.read_layering(ctx, '4')
+    shared.file_reads_shadowed(ctx, '4s')
     # 5. in-order planning: IndexedChangeSet.changes is append-only and iterated forward
     rx = re.compile(REORDER_RX)
     uses = []
